@@ -56,6 +56,8 @@ def cases(tier, seed):
                         # other representations of the feature matrix: integer dtype (coordinates scaled by 20), Fortran order
                         yield dict(cv="kfold", layout=[nbx, nby], occ=occ, spec="spacing", rep="int")
                         yield dict(cv="kfold", layout=[nbx, nby], occ=occ, spec="shape", rep="F")
+                        # parameters assigned as attributes after construction with other values
+                        yield dict(cv="kfold", layout=[nbx, nby], occ=occ, spec="shape", route="attr")
                     if ncell <= (4 if tier == "quick" else 6) and (tier == "quick" or max(occ) <= 3):
                         yield dict(cv="shuffle", layout=[nbx, nby], occ=occ, spec="shape")
     yield dict(cv="badX", layout=[2, 2], occ=[1, 1, 1, 1], spec="shape")
@@ -139,7 +141,12 @@ def run(case, rec):
                             with warnings.catch_warnings(record=True) as wl:
                                 warnings.simplefilter("always")
                                 try:
-                                    cv = vd.BlockKFold(n_splits=n_splits, shuffle=shuffle, random_state=sd, balance=balance, **spec)
+                                    if case.get("route") == "attr":
+                                        cv = vd.BlockKFold(n_splits=max(2, (n_splits + 1) % 5), shuffle=not shuffle, random_state=99, balance=not balance, spacing=7.0)
+                                        cv.n_splits, cv.shuffle, cv.random_state, cv.balance = n_splits, shuffle, sd, balance
+                                        cv.spacing, cv.shape = spec.get("spacing"), spec.get("shape")
+                                    else:
+                                        cv = vd.BlockKFold(n_splits=n_splits, shuffle=shuffle, random_state=sd, balance=balance, **spec)
                                     rec.check(cv.get_n_splits() == n_splits, "get_n_splits")
                                     out = [(tr.tolist(), te.tolist()) for tr, te in cv.split(X)]
                                 except Exception as exc:  # noqa: BLE001
